@@ -186,4 +186,22 @@ class C03(IRProp):
         return None
 
 
+    def oracle(self, tier, ctx, boosted):
+        import random
+
+        from harness import ctxlevel
+        from vlib import common as C
+        res = super().oracle(tier, ctx, boosted)
+        # patches with a direct call or an alignment directive on x86-64 and AArch64
+        rnd = C.rng("c03-ctx" + ("-boost" if boosted else ""))
+        for _ in range({"quick": 300, "thorough": 3000}["thorough" if boosted else tier]):
+            sd = rnd.randrange(1 << 30)
+            w = ctxlevel.patch_control_flow(random.Random(sd))
+            res["evaluations"] += 1
+            if w:
+                res["violations"].append(dict(what=w, input={"patch_control_flow_seed": sd}, finding=None))
+        res["violations"] = [b for b in res["violations"] if b["finding"] is None][:10] + [b for b in res["violations"] if b["finding"] is not None][:5]
+        return res
+
+
 PROP = C03()
